@@ -246,9 +246,29 @@ Definition model_bookkeeping : bookkeeping :=
   {| b_apply_upstreams_args_kwargs := true; b_derive_sets_orig := true |}.
 
 (* ------------------------------------------------------------------ evaluator state *)
-Record variant : Type := { v_copy_sched : bool; v_derive_cached : bool }.
-Definition shipped : variant := {| v_copy_sched := false; v_derive_cached := false |}.
-Definition fixed : variant := {| v_copy_sched := true; v_derive_cached := true |}.
+(** [v_forget]: the program being evaluated is a *deserialised* expression tree (the result
+    expression of a parent task that was a cache hit, read back from the backend) AND
+    [TaskExpression.__setstate__] does not rebuild [_upstreams = [args, kwargs]].  Then a
+    scheduler expression (cond, seq, catch: subclasses of TaskExpression, no call_hash) starts with
+    [_upstreams = []]; only what [derive_expression] assigns later is seen by the finder.  Task calls
+    are linked through [call_hash] and SimpleExpressions rebuild in their own [__setstate__]. *)
+Record variant : Type := { v_copy_sched : bool; v_derive_cached : bool; v_forget : bool }.
+Definition shipped : variant := {| v_copy_sched := false; v_derive_cached := false; v_forget := false |}.
+Definition fixed : variant := {| v_copy_sched := true; v_derive_cached := true; v_forget := false |}.
+
+(** Shape of [TaskExpression.__setstate__] / [SimpleExpression.__setstate__] as the translator reads it. *)
+Record setstate : Type := { ss_rebuilds_upstreams : bool }.
+Definition model_setstate : setstate := {| ss_rebuilds_upstreams := true |}.
+Definition forgetful_setstate : setstate := {| ss_rebuilds_upstreams := false |}.
+
+(** The variant under which a deserialised program is evaluated (pickling round trip: the objects
+    are new, [call_hash] is None, [_upstreams] is whatever [__setstate__] leaves). *)
+Definition deser_variant (S : setstate) (V : variant) : variant :=
+  {| v_copy_sched := v_copy_sched V; v_derive_cached := v_derive_cached V;
+     v_forget := v_forget V || negb (ss_rebuilds_upstreams S) |}.
+
+(** [_upstreams] a scheduler expression keeps from its construction. *)
+Definition kept (V : variant) (u : list ckey) : list ckey := if v_forget V then [] else u.
 
 (** What the catch cache holds for a catch expression: its main expression (it succeeded) or
     the recover expression [recover(ValueExpression(error))]. *)
@@ -400,7 +420,10 @@ Section Eval.
     | ECond args =>
         match lookup e (s_pend st) with
         | Some o => (dup_sched V o, st)
-        | None => let '(o, st1) := eval_cond args st in (o, register e o st1)
+        | None =>
+            let '((r0, u0), st1) := eval_cond args st in
+            let o := (r0, kept V u0) in
+            (o, register e o st1)
         end
     | ESeq items =>
         match lookup e (s_pend st) with
@@ -408,7 +431,7 @@ Section Eval.
         | None =>
             let '(os, st1) := eval_seq items st in
             let o := (match collect (map labres os) with inl vs => Ok (mk_list vs) | inr err => Raise err end,
-                      all_ups os) in
+                      kept V (all_ups os)) in
             (o, register e o st1)
         end
     | ECatch e0 cls r =>
@@ -420,12 +443,12 @@ Section Eval.
               | None =>
                   let '((re, ue), st1) := eval e0 st in
                   match re with
-                  | Ok v => ((Ok v, ue), add_cache e CSucc st1)
+                  | Ok v => ((Ok v, kept V ue), add_cache e CSucc st1)
                   | Raise err =>
                       if w_matches W cls err then
                         let '(o, st2) := eval_recover r err ue st1 in
                         (o, if is_ok (fst o) then add_cache e (CRec err) st2 else st2)
-                      else ((Raise err, ue), st1)
+                      else ((Raise err, kept V ue), st1)
                   end
               | Some CSucc =>
                   (* a deserialised copy of e0 is evaluated; the objects in the catch
